@@ -23,9 +23,12 @@
    CRC of bytes 12..31 against the field at 8..11, then the CRC of the bytes at
    (32+ofs, size) against the field at 28..31.  [open_view img] is the next header that
    the reader goes on to parse (None = the reader raises).  For an encoded header (first
-   byte 0x17) Header._read decodes the packed header and checks its CRC only when the
-   descriptor defines one; py7zr's own UnpackInfo.write never writes one
-   ("FIXME: write CRCs here"), which is what [plain_header] mirrors.
+   byte 0x17) Header._read decodes the packed header and checks its CRC when the descriptor
+   defines one ([plain_header]).  Since the repair "store the CRC of the plain header in an
+   encoded header" py7zr's writer always defines it (Header._encode_header sets
+   folder.digestdefined, HeaderStreamsInfo.write emits the CRC record): [desc_protected].
+   Descriptors written by earlier versions carry none; for those the window of
+   C14_append_legacy_descriptor_window is still open.
 
    Definitions only (computable, extracted); the proofs are in TraceProofs.v. *)
 From P7 Require Import Prelude PyPrims Crc32 Header.
@@ -183,6 +186,14 @@ Definition enc_desc (lim : Z) (h : bytes) : option (folder * (Z * Z * Z)) :=
   | _ => None
   end.
 
+(* the descriptor carries the CRC of the plain header (what the repaired writer always emits); a raw
+   header needs none: it is covered by the next-header CRC itself *)
+Definition desc_protected (lim : Z) (h : bytes) : bool :=
+  match enc_desc lim h with
+  | Some (f, _) => f_digestdefined f && match f_crc f with Some _ => true | None => false end
+  | None => true
+  end.
+
 Section Encoded.
   Variable lim : Z.
   (* the decoder chain of the folder run over the packed bytes for the declared unpack
@@ -296,5 +307,7 @@ Definition trace_dispatch (fn : Z) (a : tree) : tree :=
                                (of_nat_t (tnth a 3)) (of_nat_t (tnth a 4)))
   (* FN 288 trace_start_crc : (ofs size hcrc) -> int *)
   | 288 => TI (start_crc (of_TI (tnth a 0)) (of_TI (tnth a 1)) (of_TI (tnth a 2)))
+  (* FN 289 trace_desc_protected : (lim hdr) -> bool *)
+  | 289 => t_bool (desc_protected (of_TI (tnth a 0)) (of_bytes (tnth a 1)))
   | _ => TL [TI (-2)]
   end.
